@@ -135,7 +135,7 @@ Qed.
 Record put_effect (e : env) (owner : addr) (id : N) (k : basket) (s s' : state)
     (cs : list basket_credit) (l : list (bytes * dec)) : Prop := {
   pe_amounts : Forall2 (fun c x => bcr_denom c = x.1 /\ posfixed P (bcr_amount c) = Ok x.2 /\ 0 < U x.2) cs l;
-  pe_admit : Forall (fun c => exists bkey ba, batch_by_denom s (bcr_denom c) = Some (bkey, ba) /\
+  pe_accept : Forall (fun c => exists bkey ba, batch_by_denom s (bcr_denom c) = Some (bkey, ba) /\
                                               can_basket_accept e s id k ba = LOk tt) cs;
   pe_supplies : supplies s' = supplies s;
   pe_others : forall a bk, a <> owner -> balances s' !! (a, bk) = balances s !! (a, bk);
@@ -189,7 +189,7 @@ Proof.
     destruct Hpe. split.
     + constructor; [cbn [fst snd]; auto | exact pe_amounts0].
     + constructor; [eauto|].
-      eapply Forall_impl; [|exact pe_admit0]. cbn beta. intros c0 (bk0 & ba0 & A1 & A2).
+      eapply Forall_impl; [|exact pe_accept0]. cbn beta. intros c0 (bk0 & ba0 & A1 & A2).
       exists bk0, ba0. split.
       * rewrite <- A1. symmetry. apply batch_by_denom_frame. reflexivity.
       * rewrite <- A2. symmetry. apply can_basket_accept_frame; reflexivity.
@@ -321,16 +321,16 @@ Definition date_ok (crit : date_criteria) (T start : ts) : Prop :=
   | Some m => ts_compare start m <> Lt
   end.
 
-Definition admitted (e : env) (s : state) (id : N) (k : basket) (ba : batch) : Prop :=
+Definition acceptable (e : env) (s : state) (id : N) (k : basket) (ba : batch) : Prop :=
   date_ok (bk_criteria k) (e_time e) (ba_start ba) /\
   (id, get_class_id_from_batch_denom (ba_denom ba)) ∈ basket_classes s /\
   exists ck cl, class_by_id s (get_class_id_from_batch_denom (ba_denom ba)) = Some (ck, cl) /\
                 cl_ct cl = bk_ct k.
 
 Lemma can_basket_accept_iff e s id k ba :
-  can_basket_accept e s id k ba = LOk tt <-> admitted e s id k ba.
+  can_basket_accept e s id k ba = LOk tt <-> acceptable e s id k ba.
 Proof.
-  unfold can_basket_accept, admitted, date_ok. split.
+  unfold can_basket_accept, acceptable, date_ok. split.
   - intros H. lstep H as u1 H1. lstep H as u2 H2. lstep H as x H3. destruct x as [ck cl].
     apply check_ok' in H. apply bytes_eqb_eq in H. apply bool_decide_eq_true in H2.
     split; [|split; [exact H2 | eauto]].
@@ -370,7 +370,7 @@ Qed.
 
 Theorem put_admission e owner id k p s rec c s' rec' :
   put_one e owner id k p (s, rec) c = LOk (s', rec') ->
-  exists bkey ba, batch_by_denom s (bcr_denom c) = Some (bkey, ba) /\ admitted e s id k ba.
+  exists bkey ba, batch_by_denom s (bcr_denom c) = Some (bkey, ba) /\ acceptable e s id k ba.
 Proof.
   intros H. unfold put_one in H. lstep H as x Hx. destruct x as [bkey ba].
   lstep H as u Hacc. destruct u. exists bkey, ba. split; [exact Hx|].
@@ -381,11 +381,11 @@ Qed.
 Theorem h_put_admission e s owner bd cs s' r evs :
   Inv_core s -> h_put e s owner bd cs = LOk (s', r, evs) ->
   exists id k, basket_by_denom s bd = Some (id, k) /\
-    Forall (fun c => exists bkey ba, batch_by_denom s (bcr_denom c) = Some (bkey, ba) /\ admitted e s id k ba) cs.
+    Forall (fun c => exists bkey ba, batch_by_denom s (bcr_denom c) = Some (bkey, ba) /\ acceptable e s id k ba) cs.
 Proof.
   intros Hcore H. destruct (h_put_spec _ _ _ _ _ _ _ _ Hcore H)
     as (id & k & l & s1 & Hx & _ & _ & _ & Hpe & _).
   exists id, k. split; [exact Hx|].
-  eapply Forall_impl; [|exact (pe_admit _ _ _ _ _ _ _ _ Hpe)]. cbn beta.
+  eapply Forall_impl; [|exact (pe_accept _ _ _ _ _ _ _ _ Hpe)]. cbn beta.
   intros c (bkey & ba & A1 & A2). exists bkey, ba. split; [exact A1|]. apply can_basket_accept_iff. exact A2.
 Qed.
